@@ -167,3 +167,9 @@ func SyncMapPoints() {}
 
 // Preemptions bounds the non-forced thread switches explored by the engine.
 func Preemptions(n int) {}
+
+// MapRaces makes the engine watch every map gorm makes from here on: two accesses
+// by different goroutines, one of them a write, that no synchronisation orders
+// on the explored schedule are reported (label map-race) and confirmed natively
+// by the Go race detector. Natively a no-op.
+func MapRaces() {}
